@@ -35,3 +35,34 @@ pub fn run(k: &str, a: &Value) -> Option<Value> {
         _ => return None,
     })
 }
+
+pub fn run2(k: &str, a: &Value) -> Option<Value> {
+    use engeom::geom2::{Curve2, UnitVec2};
+    use engeom::metrology::line_profiles::point_curve2_deviation;
+    use engeom::metrology::{Distance2, Distance3, Measurement};
+    Some(match k {
+        "curve_deviation" => {
+            // a two-vertex curve through p with the given unit direction: the station at p is its first vertex
+            let p = p2(&a["p"]);
+            let d = v2(&a["dir"]);
+            let c = Curve2::from_points(&[p, p + d * 10.0], 1e-9, false).unwrap();
+            let st = c.at_front();
+            let dev = point_curve2_deviation(&st, &p2(&a["q"]));
+            json!({"value": fo(dev.deviation), "point": po(&dev.surface.point), "normal": [fo(dev.surface.normal.x), fo(dev.surface.normal.y)]})
+        }
+        "distance" => {
+            let av = fv(&a["a"]);
+            let bv = fv(&a["b"]);
+            let dv = fv(&a["d"]);
+            if av.len() == 2 {
+                let d = Distance2::new(Point2::new(av[0], av[1]), Point2::new(bv[0], bv[1]), Some(UnitVec2::new_unchecked(Vector2::new(dv[0], dv[1]))));
+                json!({"value": fo(d.value()), "reversed_value": fo(d.reversed().value())})
+            } else {
+                use engeom::{Point3, UnitVec3, Vector3};
+                let d = Distance3::new(Point3::new(av[0], av[1], av[2]), Point3::new(bv[0], bv[1], bv[2]), Some(UnitVec3::new_unchecked(Vector3::new(dv[0], dv[1], dv[2]))));
+                json!({"value": fo(d.value()), "reversed_value": fo(d.reversed().value())})
+            }
+        }
+        _ => return None,
+    })
+}
